@@ -1,0 +1,40 @@
+//go:build verif
+
+// Contracts (machine-checked specifications) for package action, read by /verif's govc.
+// This file contains comments only and compiles to nothing with or without the tag.
+
+package action
+
+//@ func ComputeFeeAmount(amount, basisPoints) (result, err)
+//@   requires[base] !isnil(amount)
+//@   ensures[C04]   err == nil && val(amount)*basisPoints >  0 ==> val(result) == (val(amount)*basisPoints) / 10000
+//@   ensures[C04]   err == nil && val(amount)*basisPoints <= 0 ==> val(result) == 0
+//@   ensures[C04]   abs(val(amount)*basisPoints) >= 2^256 ==> err != nil
+//@   ensures[base]  !isnil(result)
+
+// One fee transfer and the (at most five) transfers of a fee action, applied in list order.
+//@ macro payAt(b, from, fees, j) = ite(j < len(fees), move(b, from, fees[j].Recipient, fees[j].Amount[0].Denom, val(fees[j].Amount[0].Amount)), b)
+//@ macro pay5(b, from, fees) = payAt(payAt(payAt(payAt(payAt(b, from, fees, 0), from, fees, 1), from, fees, 2), from, fees, 3), from, fees, 4)
+
+// Entry k of the fee list, when it yields a positive fee, is the rank5(k)-th transfer: to the decoded
+// recipient, one coin of the transfer denom, of exactly feeOf(A, entry).
+//@ macro entryOK(A, fs, denom, res, k) = k < len(fs) && feeOf(A, fs[k]) > 0 ==>
+//@     res.Values[rank5(A, fs, k)].Recipient == decodeAddr(fs[k].Recipient) &&
+//@     len(res.Values[rank5(A, fs, k)].Amount) == 1 &&
+//@     res.Values[rank5(A, fs, k)].Amount[0].Denom == denom &&
+//@     val(res.Values[rank5(A, fs, k)].Amount[0].Amount) == feeOf(A, fs[k])
+
+//@ func (c *FeeController) ComputeFeesToDistribute(transferAmount, transferDenom, feesInfo) (result, err)
+//@   requires[base] !isnil(transferAmount) && val(transferAmount) >= 0 && validDenom(transferDenom)
+//@   requires[base] validFees(feesInfo)
+//@   loop 0 unroll 5
+//@   letold A = val(transferAmount)
+//@   ensures[base]  err == nil ==> result != nil && !isnil(result.Total) && len(result.Values) <= 5
+//@   ensures[C04]   err == nil ==> val(result.Total) == sum5(A, feesInfo)
+//@   ensures[C04]   err == nil ==> len(result.Values) == npos5(A, feesInfo)
+//@   ensures[C04]   err == nil ==> entryOK(A, feesInfo, transferDenom, result, 0)
+//@   ensures[C04]   err == nil ==> entryOK(A, feesInfo, transferDenom, result, 1)
+//@   ensures[C04]   err == nil ==> entryOK(A, feesInfo, transferDenom, result, 2)
+//@   ensures[C04]   err == nil ==> entryOK(A, feesInfo, transferDenom, result, 3)
+//@   ensures[C04]   err == nil ==> entryOK(A, feesInfo, transferDenom, result, 4)
+//@   ensures[C04]   mulOvf5(A, feesInfo) ==> err != nil
